@@ -13,7 +13,7 @@ CLAIM = {
  "C05": "Lean theorems over the generated tolerance facts (tolerated operators and sites are exactly the licensed ones, guarded by the *ErrUnknownIdentifier assertion) and over the evaluator model: a non-tolerated operand/condition/element/statement error is the result of the enclosing construct and of compile, with the cause chain kept and the output dropped.",
  "C06": "Lean theorems over the TRANSLATED precedence table and operator tables (documented order, registration, each operator's meaning per operand type, division by zero, type mismatch, short-circuit) and THEOREM C — the Pratt round trip on the parser model: every expression tree over atoms, registered binary operators and prefix operators (! -), printed with the minimal parentheses that the precedence table and LEFT associativity require, is parsed back to exactly that tree (any depth, any operator mix), with grouping corollaries (equal levels nest left, tighter operators first, right-nested trees need parentheses). Partial: call / index inside the round trip and the evaluator-wide equality with the reference evaluator are tied by exhaustive correspondence and the oracle; bool-left coercion is a known finding.",
  "C07": "Lean theorems: isTruthy (generated from compiler.go) equals the property's falsy list on every value; !, if, else-if use it with the unknown-identifier-as-nil rule; for chains of ANY length the block of the first truthy condition is the result and later conditions do not occur in it (induction over the else-if list).",
- "C08": "Lean theorems over the loop models: per-element step for normal / continue / break results (break stops, continue keeps the partial output and goes on, elements in list order), block folding of control objects, the counter iterator's running count, and the parser restoring the enclosing loop state. Partial: the unrolling equivalence over whole programs is decided by the oracle.",
+ "C08": "Lean theorems over the loop models: per-element step for normal / continue / break results (break stops, continue keeps the partial output and goes on, elements in list order), block folding of control objects, the counter iterator's running count, and — for every input — the parser's loop flag is SCOPED: every parse function returns with the inForBlock flag it was called with (all 20 functions, automated walk), so break/continue are accepted exactly inside loops, however nested. Partial: the unrolling equivalence over whole programs is decided by the oracle.",
  "C09": "Lean theorems: every scoping construct runs its body under withCtx on a fresh child context and the caller's context is current again afterwards (on success and on error); writes go to the current frame only; with C10_isolation a write in a child is invisible to ancestors and siblings.",
  "C10": "Lean refinement theorem: for EVERY history of NewContextWith / New / Set, Value and Has of the concrete store (association lists, parent indexes, helper injection) equal those of an abstract scope-chain spec in which a scope is a partial function; corollaries: value-after-set, nearest binding wins, Has ⇔ non-nil, isolation of ancestors and siblings.",
  "C11": "PARTIAL. Lean theorems about the logic part: dotted-path split/join, assignCallee wiring (the indexed element is the root of the member chain, also for a[i].b.f()), two-sided bounds check, missing key = nil, member of nil = nil. Field/method navigation over reflected Go values is outside the model and is decided by the self-describing-data oracle.",
